@@ -52,3 +52,20 @@
 ;@lemma prefixes of a digit string have smaller or equal value
 (define-fun natval_prefix_le ((x (Array Int Int)) (o Int) (k Int) (m Int)) Bool
   (=> (and (<= 0 k) (<= k m) (isdigits x o m)) (<= (natval x o k) (natval x o m))))
+;@lemma scaling twice is scaling by the sum
+(define-fun scaled_add ((v Int) (a Int) (b Int)) Bool (=> (and (>= a 0) (>= b 0)) (= (scaled (scaled v a) b) (scaled v (+ a b)))))
+;@lemma scaling keeps zero and sign
+(define-fun scaled_sign ((v Int) (k Int)) Bool (=> (>= k 0) (and (= (= (scaled v k) 0) (= v 0)) (=> (>= v 0) (>= (scaled v k) v)))))
+;@lemma a leading zero digit does not change the value
+(define-fun natval_leading_zero ((x (Array Int Int)) (o Int) (k Int)) Bool
+  (=> (and (>= k 1) (= (select x o) 48)) (= (natval x o k) (natval x (+ o 1) (- k 1)))))
+; decimal equality  N * 10^-x == M * 10^-s   (x >= 0, s any integer), stated with non-negative scalings only
+(define-fun deceq ((N Int) (x Int) (M Int) (s Int)) Bool (ite (>= s 0) (= (scaled N s) (scaled M x)) (= N (scaled M (- x s)))))
+;@lemma appended zero digits scale the value
+(define-fun natval_append_zeros ((x (Array Int Int)) (o Int) (k Int) (z Int)) Bool
+  (=> (and (>= k 0) (>= z 0) (forall ((p Int)) (! (=> (and (<= (+ o k) p) (< p (+ o k z))) (= (select x p) 48)) :pattern ((select x p)))))
+      (= (natval x o (+ k z)) (scaled (natval x o k) z))))
+;@lemma
+(define-fun scaled_shift ((v Int) (k Int)) Bool (=> (>= k 0) (= (scaled (* 10 v) k) (scaled v (+ k 1)))))
+;@lemma scaling is injective
+(define-fun scaled_inj ((a Int) (b Int) (k Int)) Bool (=> (and (>= k 0) (= (scaled a k) (scaled b k))) (= a b)))
